@@ -196,10 +196,16 @@ func write(sb *strings.Builder, v any, m Mode) {
 			write(sb, tv[k], m)
 		}
 		sb.WriteByte('}')
+	case Valuer:
+		write(sb, tv.CanonValue(), m)
 	default:
 		writeReflect(sb, reflect.ValueOf(v), m)
 	}
 }
+
+// Valuer lets harness wrapper types (Keyed/Indexed collections) expose the plain
+// value they stand for.
+type Valuer interface{ CanonValue() any }
 
 func writeUint(sb *strings.Builder, u uint64, m Mode) {
 	if u <= math.MaxInt64 {
@@ -251,6 +257,43 @@ func writeReflect(sb *strings.Builder, rv reflect.Value, m Mode) {
 		it := rv.MapRange()
 		for it.Next() {
 			kvs = append(kvs, kv{fmt.Sprint(it.Key().Interface()), it.Value()})
+		}
+		sort.Slice(kvs, func(i, j int) bool { return kvs[i].k < kvs[j].k })
+		sb.WriteByte('{')
+		for i, e := range kvs {
+			if i > 0 {
+				sb.WriteByte(',')
+			}
+			sb.WriteString(strconv.Quote(e.k))
+			sb.WriteByte(':')
+			writeReflectElem(sb, e.v, m)
+		}
+		sb.WriteByte('}')
+	case reflect.Struct:
+		if rv.Type() == reflect.TypeOf(time.Time{}) && rv.CanInterface() {
+			write(sb, rv.Interface(), m)
+			return
+		}
+		type kv struct {
+			k string
+			v reflect.Value
+		}
+		var kvs []kv
+		for i := 0; i < rv.NumField(); i++ {
+			f := rv.Type().Field(i)
+			if f.PkgPath != "" {
+				continue
+			}
+			name := f.Name
+			if tag := f.Tag.Get("json"); tag != "" {
+				if j := strings.IndexByte(tag, ','); j >= 0 {
+					tag = tag[:j]
+				}
+				if tag != "" && tag != "-" {
+					name = tag
+				}
+			}
+			kvs = append(kvs, kv{name, rv.Field(i)})
 		}
 		sort.Slice(kvs, func(i, j int) bool { return kvs[i].k < kvs[j].k })
 		sb.WriteByte('{')
